@@ -40,6 +40,10 @@ THEOREMS = [
     "BeyondVerif.C12.reads_do_not_change_the_orbit",
     "BeyondVerif.C12.format_within_half_unit",
     "BeyondVerif.C12.angle_grid_range",
+    "BeyondVerif.C12.wrap_range",
+    "BeyondVerif.C12.wrap_same_angle",
+    "BeyondVerif.C12.wrap_turn_invariant",
+    "BeyondVerif.C12.wrapped_angle_fits_columns",
     "BeyondVerif.C12.drag_exponent_found",
     "BeyondVerif.C12.drag_five_digits",
     "BeyondVerif.C12.drag_normal_form",
@@ -58,6 +62,7 @@ THEOREMS = [
     "BeyondVerif.C12W.blank_drag_field_skipped",
     "BeyondVerif.C12W.alpha5_refused",
     "BeyondVerif.C12W.negative_norad",
+    "BeyondVerif.C12W.wrap_is_floor_modulo",
 ]
 LEVEL_TEXT = ("Lean theorems over a List Char / Int / exact-rational model of beyond/io/tle.py whose column slices, writer layout, uses of the `orbit` argument and UTC date "
               "expression are regenerated from the Python AST on every run (the hand-modelled functions are compared statement by statement with the source the model was "
@@ -71,7 +76,9 @@ LEVEL_TEXT = ("Lean theorems over a List Char / Int / exact-rational model of be
               "the five digits and the exponent of a drag term are found and nearest for every double between 1e-400 and 1e400 (drag_exponent_found, drag_five_digits, "
               "drag_normal_form), the epoch of EVERY instant of 1957-2056 is written with the right two-digit year (pivot 57, leap years through CPython's ord2ymd) and is "
               "read back at most 432 us away, in the same year (epoch_century, epoch_within_half_unit); every orbit of the writer's domain yields two 69-column lines "
-              "(quantize_wide, offgrid_written_valid); what is written is read back as itself up to the normalisation of the three carries 360.0000 / day N+1.00000000 / "
+              "(quantize_wide, offgrid_written_valid); the angle handed to the format is Python's floor modulo of the angle in degrees, so that EVERY representative of an angle "
+              "(negative out of an arctan2, several turns) is written unsigned between 0.0000 and 360.0000 and representatives a whole number of turns apart are written "
+              "alike (wrap_range, wrap_same_angle, wrap_turn_invariant, wrapped_angle_fits_columns; C's fmod would not: Witness wrap_is_floor_modulo); what is written is read back as itself up to the normalisation of the three carries 360.0000 / day N+1.00000000 / "
               "00000-9 (wide_roundtrip), and from the SECOND generation on parse -> write is the identity, character for character "
               "(second_generation_fixed, offgrid_idempotent_from_second_generation, offgrid_three_generations). THE ORBIT SIDE: for every catalogue-number text and every "
               "record whatsoever, an accepted record was written on exactly 69 columns, its catalogue number has at most five characters and is int() of its columns; "
@@ -87,8 +94,9 @@ LEVEL_TEXT = ("Lean theorems over a List Char / Int / exact-rational model of be
               "(from_string_no_memory), a rejected entry leaves no trace, a valid entry is yielded wherever it stands (rejected_entry_leaves_no_trace, "
               "valid_entry_yielded_anywhere). Exact differential correspondence of the model with Tle, Tle.from_orbit (grid records, off-grid doubles in five time scales, "
               "argument forms, histories on one orbit), Tle.from_string, _float, _unfloat.")
-LEVEL_NOTE = ("the float operations IN FRONT of str.format (np.degrees, % 360, n*86400/2pi, /2, /6, the float sum of the day fraction) are not modelled: the model starts at the "
-              "double handed to str.format (the harness evaluates the source's own keyword expressions, which extract compares with the modelled ones); the formatting itself "
+LEVEL_NOTE = ("the float operations IN FRONT of str.format (np.degrees, n*86400/2pi, /2, /6, the float sum of the day fraction) are not modelled: the model starts at the "
+              "double handed to str.format (the harness evaluates the source's own keyword expressions, which extract compares with the modelled ones); the wrap `% 360` is "
+              "modelled exactly (floor modulo of the exact value of np.degrees(a); the code's result is compared with it to the one binary64 rounding of fmod + 360); the formatting itself "
               "(correct rounding, ties to even on the exact binary value), the binary64 product of the small-drag branch and CPython's calendar are inside the model and "
               "compared exactly; the hand-written model is tied to the code by AST comparison + correspondence; Lean kernel + propext/Classical.choice/Quot.sound")
 TECHNIQUE = ("Lean 4 proofs over a List Char / Int / exact-rational model of tle.py whose column table, writer layout, reads of the orbit and UTC date expression are regenerated "
@@ -135,9 +143,12 @@ RULE = ("correspondence: records with every field drawn from its full range with
         "(angles at 0, 2pi-, 359.99994/6 deg, e at 0.99999994/6, drag terms around 1e-10 and 0.5e-14, epochs at the last microseconds of a year, dates labelled UTC/TAI/TT/GPS/TDB "
         "under the real IERS tables, one number pushed out of its columns) sent as exact fractions, then their second and third generation; _unfloat on doubles of every magnitude "
         "and on ties; datetime -> (yy, day) for every kind of boundary of 1957-2056; histories of 2-10 operations on one orbit (three ways to start, every attribute set by name or "
-        "by index, deleted, copies, re-reads, reads with and without arguments). non-trivial = every case (key = the request); oracle: the property's clauses on Tle, Tle.from_orbit, "
+        "by index — an angle also as a representative whole turns away —, deleted, copies, re-reads, reads with and without arguments); np.degrees(a) % 360 on angles of "
+        "every representative (negative, several turns, -pi, +-2pi, the values needing a ninth column unwrapped, the printed grid) vs the exact floor modulo. non-trivial = every case (key = the request); oracle: the property's clauses on Tle, Tle.from_orbit, "
         "Tle.from_string (three error modes, another comment mark), _float, _unfloat with tolerances of half a printed unit (epoch 1e-8 day); second/third generation after every write; "
-        "orbits held in other forms/frames; every history compared with a freshly built orbit; every formerly failing family (leading blank, stale line 1, e -> 1.0000000, missing "
+        "orbits held in other forms/frames; off-grid orbits whose angles are any representative (a quarter of them negative, several turns or at a turn boundary) with "
+        "every angle field required unsigned in 0.0000..360.0000; parsed TLEs taken through chains of 1-3 of the ten forms (the arctan2-based ones hand back angles in (-pi, pi]) "
+        "and written back, text compared with the original; every history compared with a freshly built orbit; every formerly failing family (leading blank, stale line 1, e -> 1.0000000, missing "
         "line, drag below 1e-10, blank drag field) is exercised by directed cases on every run")
 
 TLE_PY = os.path.join(core.REPO, "beyond", "io", "tle.py")
@@ -443,6 +454,14 @@ def write_checks(out, orb, what, inp, name=None):
             out.fail(f"written-length-line{k + 1}", "a written line is not 69 characters long", inp, observed=l, expected="69 characters")
         elif str(spec_checksum(l)) != l[68]:
             out.fail(f"written-checksum-line{k + 1}", "a written line carries a wrong checksum", inp, observed=l, expected=str(spec_checksum(l)))
+    if len(lines[-1]) == 69:
+        # the format's angles are unsigned, 0.0000 .. 359.9999 (360.0000 = the rounding carry of WideRange): whatever representative the orbit
+        # holds (negative, several turns), the written field is the angle wrapped into one turn (wrapped_angle_fits_columns)
+        for nm, (a, b) in (("i", (8, 16)), ("Ω", (17, 25)), ("ω", (34, 42)), ("M", (43, 51))):
+            fld = lines[-1][a:b]
+            if not (set(fld) <= set("0123456789. ") and fld[3] == "." and 0 <= int(fld.replace(".", "")) <= 3600000):
+                out.fail("written-angle-field-" + nm, "an angle field of a written line is not an unsigned angle of 0.0000 .. 360.0000", inp, observed=lines[-1],
+                         expected="%8.4f" % (math.degrees(float(orb[{"i": 0, "Ω": 1, "ω": 3, "M": 4}[nm]])) % 360))
     half = lambda unit: 0.5 * unit * (1 + 1e-6) + 1e-15
     i, raan, e, argp, ma, n = [float(x) for x in orb]
 
@@ -486,10 +505,17 @@ def gen_float_orbit(rng):
     from datetime import datetime, timedelta
     from beyond.dates import Date
 
-    def ang():
+    def ang(incl=False):
         k = rng.random()
         if k < 0.08:
             return rng.choice([0.0, math.pi, 2 * math.pi - 1e-12, math.radians(359.99994), math.radians(359.99996), 1e-9, math.radians(0.00005), math.radians(0.03125)])
+        if k < 0.30 and not incl:
+            # another representative of the angle: (-pi, pi] (arctan2-based conversions, elements set by hand), the turn below, several turns,
+            # the boundaries -pi, -2pi, 2pi, 4pi and the values that need a ninth column when they are not wrapped (<= -100 deg, >= 1000 deg)
+            return rng.choice([rng.uniform(-math.pi, 0), rng.uniform(-math.pi, 0), rng.uniform(-2 * math.pi, 0), rng.uniform(2 * math.pi, 4 * math.pi),
+                               rng.uniform(-20 * math.pi, 20 * math.pi), rng.choice([-math.pi, -2 * math.pi, 2 * math.pi, 4 * math.pi, -0.0, -1e-9, -1e-20,
+                                                                                   math.radians(-0.00004), math.radians(-0.00006), math.radians(-99.99996), math.radians(-100.0),
+                                                                                   math.radians(-28.5), math.radians(-170.0), math.radians(999.99996), math.radians(1000.0)])])
         return rng.uniform(0, 2 * math.pi)
 
     def ecc():
@@ -578,8 +604,15 @@ def o_write(out, rng):
     scale = rng.choice(SCALES)
     orb = with_scale(orb, scale)
     inp = dict(inp, scale=scale)
-    tle, err = write_checks(out, orb, "written TLE does not parse back to the orbit's elements", inp)
+    tle = judge_write(out, orb, inp)
     out.count(key=repr(inp["vals"]), kind="write-float", writable=tle is not None, scale=scale)
+    if tle is not None:
+        generations(out, tle, inp)
+
+
+def judge_write(out, orb, inp):
+    """clause 2 on one orbit of the format's ranges (any representative of its angles): it is written, and what is written passes write_checks"""
+    tle, err = write_checks(out, orb, "written TLE does not parse back to the orbit's elements", inp)
     if tle is None:
         out.tally("unwritable=" + err[:24])
         e = inp["vals"][2]
@@ -588,8 +621,7 @@ def o_write(out, rng):
             small = [x for x in (inp["data"]["bstar"], inp["data"]["ndotdot"] / 6) if 0 < abs(x) < 1e-10]
             out.fail("write-small-drag-unwritable" if small else "write-in-range-unwritable", "an orbit inside the ranges of the format cannot be written", inp,
                      observed=err, expected="a TLE")
-        return
-    generations(out, tle, inp)
+    return tle
 
 
 FOREIGN = [("cartesian", "TEME"), ("keplerian", "TEME"), ("cartesian", "EME2000"), ("keplerian_mean", "EME2000"), ("spherical", "TEME"), ("cartesian", "ITRF"), ("tle", "EME2000")]
@@ -630,6 +662,70 @@ def o_foreign_form(out, rng):
         return
     if got != want:
         out.fail("from-orbit-foreign-form", "Tle.from_orbit of an orbit in another form/frame differs from the text of its converted copy", inp, observed=got, expected=want)
+
+
+ELEMENT_FORMS = ["keplerian_mean", "keplerian", "keplerian_eccentric", "keplerian_circular", "keplerian_mean_circular", "equinoctial", "tle"]
+SPATIAL_FORMS = ["cartesian", "spherical", "cylindrical"]
+
+
+def gen_form_chain(rng):
+    """one to three forms an orbit is taken through before it is written: the arctan2-based ones (keplerian_circular, keplerian_mean_circular, equinoctial)
+    hand back angles in (-pi, pi], sums like u - ω leave the turn on either side"""
+    n = rng.choice([1, 1, 2, 2, 3])
+    pool = ELEMENT_FORMS * 2 + SPATIAL_FORMS
+    return [rng.choice(pool) for _ in range(n)]
+
+
+def run_form_chain(out, r, chain, explicit):
+    """clause 2 on the library's own representatives of an orbit: a parsed TLE taken through other forms and written again is the TLE it came from
+    (conversions move a value by ~1e-13 of a printed unit, a grid value sits in the middle of its rounding cell)"""
+    from beyond.io.tle import Tle
+    text = spec_text(r)
+    inp = {"record": r, "chain": chain, "explicit": explicit}
+    try:
+        x = Tle(text).orbit()
+        for f in chain:
+            x = x.copy(form=f)
+        if explicit:
+            x = x.copy(form="TLE")
+        angles = [float(v) for v in x.copy(form="TLE")][:5]
+    except Exception as e:  # noqa
+        out.tally("form-chain-conversion-raises=" + type(e).__name__)        # the forms are another property's matter
+        return
+    import math
+    if not all(math.isfinite(v) for v in angles):
+        out.tally("form-chain-not-finite-skipped")
+        return
+    for k in (1, 3, 4):
+        out.tally("form-chain-angle=" + ("negative" if angles[k] < 0 else ("one-turn" if angles[k] < 2 * math.pi else "above-one-turn")))
+    before = len(out.failures)
+    write_checks(out, x.copy(form="TLE"), "a TLE taken through other forms does not parse back to the converted elements", inp)
+    if len(out.failures) > before:
+        return
+    try:
+        got = "ok " + str(Tle.from_orbit(x))
+    except Exception as e:  # noqa
+        got = real_error_token(e)
+    if got != "ok " + text:
+        out.fail("form-chain-" + ("unwritable" if not got.startswith("ok ") else "differs"),
+                 "a parsed TLE taken through other forms of the same orbit is not written back as the TLE it came from", inp, observed=got, expected=text)
+
+
+def o_form_chain(out, rng):
+    r = gen_rec(rng)
+    # a proper ellipse away from the singular elements (i = 0/180, e = 0, n = 0): every form is defined and well conditioned
+    r["i4"] = min(max(r["i4"] % 1800000, 10000), 1790000)
+    if not 10**4 <= r["e7"] <= 9 * 10**6:
+        r["e7"] = rng.randint(10**4, 9 * 10**6)
+    if r["n8"] < 10**7:
+        r["n8"] = rng.randint(10**7, 17 * 10**8 - 1)
+    for k in ("raan4", "argp4", "ma4"):
+        # an angle of exactly 0.0000 comes back as 2pi - 1e-15 from some conversions and is written 360.0000 (the carry of WideRange, see generations())
+        r[k] = min(max(r[k], 10), 3599990)
+    chain = gen_form_chain(rng)
+    explicit = rng.random() < 0.5
+    out.count(key=(spec_text(r), tuple(chain), explicit), kind="form-chain", first=chain[0], length=len(chain))
+    run_form_chain(out, r, chain, explicit)
 
 
 def o_from_string_modes(out, rng):
@@ -1107,7 +1203,13 @@ def gen_history(rng, n=None):
             g = gen_rec(rng)
             f = rng.choice(["inc4", "raan4", "argp4", "ma4", "ecc7", "mm8", "epoch", "ndot", "ndd", "bstar", "elnb", "revs", "ecc-one", "elnb-wide", "revs-wide"])
             if f in ("inc4", "raan4", "argp4", "ma4", "ecc7", "mm8"):
-                ops.append(("num", f, g[{"mm8": "n8", "ecc7": "e7", "inc4": "i4"}.get(f, f)]))
+                v = g[{"mm8": "n8", "ecc7": "e7", "inc4": "i4"}.get(f, f)]
+                if f in ("raan4", "argp4", "ma4", "inc4") and 10 <= v <= 3599990 and rng.random() < 0.35:
+                    # the same angle held as another representative (whole turns away: (-pi, pi], (-2pi, 0], several turns): the model's state is the
+                    # angle on the printed grid, the request line does not carry the turns
+                    ops.append(("num", f, v, rng.choice([-1, -1, -1, 1, -2, 3])))
+                else:
+                    ops.append(("num", f, v))
             elif f == "epoch":
                 ops.append(("epoch", g["yy"], g["day8"]))
             elif f == "ndot":
@@ -1166,6 +1268,8 @@ def hist_apply(orb, cur, op, rng=None):
         cur[{"mm8": "n8", "ecc7": "e7", "inc4": "i4"}.get(f, f)] = v
         idx = {"inc4": 0, "raan4": 1, "ecc7": 2, "argp4": 3, "ma4": 4, "mm8": 5}[f]
         val = v / 1e7 if f == "ecc7" else (v / 1e8 * 2 * math.pi / 86400.0 if f == "mm8" else math.radians(v / 1e4))
+        if len(op) > 3 and op[3]:
+            val = math.radians(v / 1e4 + 360.0 * op[3])      # another representative of the same angle (v/1e4 is at least 1e-3 deg inside the turn)
         if alt:
             orb[idx] = val
         else:
@@ -1350,7 +1454,8 @@ def o_history_directed(out, rng):
     """parse, take the orbit, change ONE thing in place, write: for every thing that can be changed, with and without a copy in between"""
     g = gen_rec(rng)
     mods = [("num", f, g[{"mm8": "n8", "ecc7": "e7", "inc4": "i4"}.get(f, f)]) for f in ("inc4", "raan4", "argp4", "ma4", "ecc7", "mm8")] + \
-           [("ndot",) + tuple(g["ndot"]), ("ndd", g["ndd"]), ("bstar", g["bstar"]), ("elnb", g["elnb"]), ("revs", g["revs"]), ("epoch", g["yy"], g["day8"])]
+           [("ndot",) + tuple(g["ndot"]), ("ndd", g["ndd"]), ("bstar", g["bstar"]), ("elnb", g["elnb"]), ("revs", g["revs"]), ("epoch", g["yy"], g["day8"])] + \
+           [("num", f, min(max(g[f], 10), 3599990), t) for f, t in (("raan4", -1), ("argp4", -1), ("ma4", -1), ("argp4", 2))]
     for mod in mods:
         for mid in ([], [("copy",)], [("read", None, None, None)], [("copyconv",), ("read", None, None, None)]):
             for start in ("tle", "rec"):
@@ -1410,6 +1515,8 @@ def oracle(ctx, widened):
         o_foreign_form(out, rng)
     for _ in range(1500 if big else 150):
         o_from_string_modes(out, rng)
+    for _ in range(3000 if big else 300):
+        o_form_chain(out, rng)
     out.sample({"checked": "parse->write identity, write->parse elements, 69 columns + checksums, every digit/length/line-number corruption rejected, from_string yields exactly the valid entries"})
     return out
 
@@ -1446,6 +1553,11 @@ def replay(f):
         run_history(out, i["start"], r, ops)
         for x in out.failures:
             x["family"] = fam
+    elif "chain" in i:
+        r = dict(i["record"])
+        for k in ("ndot", "ndd", "bstar"):
+            r[k] = tuple(r[k])
+        run_form_chain(out, r, list(i["chain"]), i["explicit"])
     elif "record" in i:
         r = dict(i["record"])
         for k in ("ndot", "ndd", "bstar"):
@@ -1455,7 +1567,11 @@ def replay(f):
         from beyond.dates import Date
         y, us = i["epoch"]
         orb = real_orbit(i["vals"], Date(datetime(y, 1, 1) + timedelta(microseconds=us)), **i["data"])
-        tle, err = write_checks(out, orb, "written TLE does not parse back to the orbit's elements", i)
+        if i.get("scale", "UTC") != "UTC":
+            from harness import env
+            env.use_real_eop()
+            orb = with_scale(orb, i["scale"])
+        tle = judge_write(out, orb, i)
         if tle is not None and fam == "rewrite-not-stable":
             from beyond.io.tle import Tle
             if str(Tle.from_orbit(tle.orbit())) != str(tle):
@@ -2382,6 +2498,59 @@ def k_offgrid(out, rng, n):
             out.fail("epoch-of-datetime", "year / day-of-year / fraction of a datetime differ from the model (CPython ord2ymd + exact fraction)", {"us_since_0001": t}, observed=w, expected=m)
 
 
+def k_wrap(out, rng, n):
+    """the wrap in front of the angle fields: the source's own expression `np.degrees(a) % 360` on every representative of an angle (negative, several
+    turns, the boundaries) vs the exact floor modulo of the model (wrapDeg) on the exact value of np.degrees(a)"""
+    import math
+    import numpy as np
+    xs = []
+    for _ in range(n):
+        k = rng.random()
+        if k < 0.25:
+            a = rng.uniform(-math.pi, math.pi)
+        elif k < 0.5:
+            a = rng.uniform(-2 * math.pi, 4 * math.pi)
+        elif k < 0.7:
+            a = rng.uniform(-50, 50) * 10.0 ** rng.randint(-3, 3)
+        elif k < 0.85:
+            a = math.radians(rng.randint(-7200000, 7200000) / 1e4 + rng.choice([0, 0, 0.00005, -0.00005]))       # the printed grid and its ties
+        else:
+            a = rng.choice([0.0, -0.0, -1e-20, -1e-9, 1e-9, -math.pi, math.pi, -2 * math.pi, 2 * math.pi, 4 * math.pi, -4 * math.pi, math.radians(-100.0),
+                            math.radians(-99.99996), math.radians(-0.00004), math.radians(-0.00006), math.radians(359.99996), math.radians(1000.0), math.radians(-28.5)])
+        xs.append(a)
+    names = ["i", "Ω", "ω", "M"]
+    deg, got, reqs = [], [], []
+    for j, a in enumerate(xs):
+        nm = names[j % 4]
+        d = float(np.degrees(np.float64(a)))
+        g = float(eval(NUM_EXPR[nm], {"np": np, nm: np.float64(a)}))
+        deg.append(d)
+        got.append(g)
+        f = Fraction(d)
+        reqs.append(f"tle.wrapq {f.numerator} {f.denominator}")
+    for a, d, g, m in zip(xs, deg, got, core.Driver().run(reqs)):
+        out.count(key=("wrapq", a), kind="wrap", region="negative" if d < 0 else ("one-turn" if d < 360 else "above"))
+        t = m.split(" ")
+        if t[0] != "ok":
+            out.fail("wrap", "the model refuses a wrap request", {"a": a}, observed=g, expected=m)
+            continue
+        exact = Fraction(int(t[1]), int(t[2]))
+        # fmod is exact; for a negative value the code adds 360.0 in binary64: one rounding, at most half an ulp of [256, 512)
+        tol = 0 if d >= 0 else Fraction(1, 2**45)
+        if not (0 <= g <= 360 and abs(Fraction(g) - exact) <= tol):
+            out.fail("wrap", "np.degrees(a) % 360 differs from the floor modulo of the model", {"a": a, "degrees": d}, observed=g, expected=float(exact))
+            continue
+        u = int(t[3])
+        want = "%8s" % ("%d.%04d" % (u // 10000, u % 10000))
+        # distance of the exact value from a tie of the fourth decimal
+        frac = (exact * 10**4) % 1
+        if abs(frac - Fraction(1, 2)) <= Fraction(1, 2**30):
+            out.tally("wrap-near-tie-skipped")
+            continue
+        if "{:8.4f}".format(g) != want:
+            out.fail("wrap-printed", "the printed angle differs from the model's rounding of the wrapped value", {"a": a, "degrees": d}, observed="{:8.4f}".format(g), expected=want)
+
+
 def k_from_string(out, rng, n):
     from beyond.io.tle import Tle
     texts = []
@@ -2519,4 +2688,5 @@ def correspondence(ctx):
     k_from_string(out, rng, ctx.n(300, 5000))
     k_history(out, rng, ctx.n(500, 8000))
     k_offgrid(out, rng, ctx.n(1500, 30000))
+    k_wrap(out, rng, ctx.n(1500, 30000))
     return out
